@@ -21,7 +21,8 @@ REGISTRY = {}      # qualname -> Contract
 class Contract:
     def __init__(self, qualname, props, instances, requires=(), ensures=(), effects=(), raises=(), modifies=(),
                  loops=None, comps=None, returns=None, decreases=None, trusted=False, note="", canaries=(),
-                 call_when=None, pure=False):
+                 call_when=None, pure=False, gen=None):
+        self.gen = gen                              # fold contract of a generator function
         self.qualname = qualname
         self.props = list(props)
         self.instances = list(instances)            # list of {param: kind}
@@ -264,6 +265,24 @@ def _path_keys(eng, env, path):
     return keys
 
 
+def _apply_gen_contract(eng, c, env, cl):
+    """a generator call by contract: an abstract finite sequence described by its fold"""
+    from .values import SeqIter
+    caller = eng.call_stack[-1] if eng.call_stack else (eng.target.qualname if eng.target else "?")
+    fr = Frame(cl, dict(env))
+    for i, r in enumerate(c.requires):
+        eng.oblige("%s/pre@call:%s#%d" % (caller, c.qualname, i), eng.spec_bool(r, env, fr))
+    if c.decreases and eng.target is not None and eng.target.qualname == c.qualname:
+        # recursive call inside the generator under verification: the measure must strictly decrease
+        cur = eng.gen_state
+        if cur is not None:
+            new = eng.eval_spec(c.decreases, env, fr)
+            oldm = eng.eval_spec(c.decreases, cur["env"], cur["frame"])
+            eng.oblige("%s/decreases" % c.qualname, z3.And(zint(new) < zint(oldm), zint(new) >= 0))
+    return SeqIter("gen", {"contract": c, "env": dict(env), "closure": cl})
+
+
+Engine.apply_gen_contract = lambda self, c, env, cl: _apply_gen_contract(self, c, env, cl)
 Engine.apply_contract = lambda self, c, env, cl: _apply_contract(self, c, env, cl)
 
 
@@ -300,9 +319,12 @@ def verify_instance(db, contracts, c, inst_index, max_paths=400, time_budget=120
         res["unsupported"] = "function not found in current source"
         return res
     cls = None
-    if "." in fpath:
+    if "." in fpath and ".<locals>." not in fpath:
         cls = db.classes.get(fpath.split(".")[0])
-    cl = Closure(fd, None, modname, cls)
+    cl = Closure(fd, None, modname, cls, name=(fpath if ".<locals>." in fpath else None))
+    if ".<locals>." in fpath:
+        # a nested function may refer to itself through the enclosing scope
+        cl.env = Frame(None, {fd.name: cl})
     stack = [[]]
     t0 = time.time()
     lemmas = set()
@@ -383,12 +405,18 @@ def _run_path(eng, c, cl, inst, cls):
     frame = Frame(cl, dict(env), self_obj, cls)
     raised = None
     result = None
+    if c.gen is not None:
+        eng.gen_state = {"contract": c, "env": dict(env), "frame": fr0, "yielded": 0, "topframe": frame}
+        frame.locals["yielded"] = 0
+    eng.call_stack.append(qn)
     try:
         eng.exec_block(fd.body, frame)
     except _Return as r:
         result = r.value
     except PyExc as e:
         raised = e
+    finally:
+        eng.call_stack.pop()
     if raised is not None:
         conds = [eng.spec_bool(cond, env, fr0) for exc, cond in c.raises if exc == raised.name]
         goal = z3.Or(*conds) if conds else z3.BoolVal(False)
@@ -399,6 +427,9 @@ def _run_path(eng, c, cl, inst, cls):
                    note="returned normally although the contract says it raises")
     post_env = dict(env)
     post_env["result"] = result
+    if c.gen is not None:
+        total = eng.eval_spec(c.gen["total"], env, fr0)
+        eng.oblige("%s/yield.total" % qn, _to_bool(eng, SV(zreal(eng.gen_state["yielded"]) == zreal(total), "bool")))
     covered = set()
     for i, (target, expr) in enumerate(c.effects):
         eng.old = snap
